@@ -806,7 +806,7 @@ mod verif_deflate_core {
         // the match must have been found AT the stream position where this token starts (lazy matching records the
         // previous position's match one step later), and it must not reach before the start of the data
         let start = NS_BASE.load(RLX) + NS_RECORDED.load(RLX);
-        assert!(match_dist as usize <= NS_SIZE_AT_BASE.load(RLX) + NS_RECORDED.load(RLX), "OBL:normal.match_never_reaches_before_start_of_data [C10 C01]");
+        assert!(match_dist as usize <= NS_SIZE_AT_BASE.load(RLX) + NS_RECORDED.load(RLX), "OBL:normal.match_never_reaches_before_start_of_data [C10 C01 C12]");
         if flags & TDEFL_RLE_MATCHES == 0 {
             let hit0 = NS_FM_POS[0].load(RLX) == start && NS_FM_DIST[0].load(RLX) == match_dist && NS_FM_LEN[0].load(RLX) == match_len;
             let hit1 = NS_FM_POS[1].load(RLX) == start && NS_FM_DIST[1].load(RLX) == match_dist && NS_FM_LEN[1].load(RLX) == match_len;
@@ -1134,15 +1134,21 @@ mod verif_deflate_core {
     #[kani::proof]
     #[kani::unwind(10)]
     fn k_read_unaligned_models_equal_real() {
+        // concrete positions (a symbolic one is a symbolic index into the 33 KiB window: memory-killed), symbolic bytes
         let mut d = DictOxide::new(0);
-        let pos: usize = kani::any();
-        let p = pos & LZ_DICT_SIZE_MASK;
-        let bytes: [u8; 8] = kani::any();
-        let mut k = 0;
-        while k < 8 { d.b.dict[p + k] = bytes[k]; k += 1; }
-        assert!(d.read_unaligned_u32(pos) == model_read_u32_exact(&d, pos), "OBL:fastcap.read_u32_model_equals_real [C10]");
-        assert!(d.read_unaligned_u64(pos) == model_read_u64_exact(&d, pos), "OBL:fastcap.read_u64_model_equals_real [C10]");
-        assert!(model_read_u32_exact(&d, pos) == u32::from_le_bytes([bytes[0], bytes[1], bytes[2], bytes[3]]), "OBL:fastcap.read_u32_is_little_endian_window_bytes [C10]");
+        let positions = [0usize, 5002, 4992, 32760, 32767, 32768 + 17, 65536 + 5000];
+        let mut j = 0;
+        while j < 7 {
+            let pos = positions[j];
+            let p = pos & LZ_DICT_SIZE_MASK;
+            let bytes: [u8; 8] = kani::any();
+            let mut k = 0;
+            while k < 8 { d.b.dict[p + k] = bytes[k]; k += 1; }
+            assert!(d.read_unaligned_u32(pos) == model_read_u32_exact(&d, pos), "OBL:fastcap.read_u32_model_equals_real [C10]");
+            assert!(d.read_unaligned_u64(pos) == model_read_u64_exact(&d, pos), "OBL:fastcap.read_u64_model_equals_real [C10]");
+            assert!(model_read_u32_exact(&d, pos) == u32::from_le_bytes([bytes[0], bytes[1], bytes[2], bytes[3]]), "OBL:fastcap.read_u32_is_little_endian_window_bytes [C10]");
+            j += 1;
+        }
     }
     fn fast_cap_body(dist: usize) {
         let mut d = any_compressor!();
@@ -1320,6 +1326,60 @@ mod verif_deflate_core {
         }
         kani::cover!(moved == 3, "COV:normalrle.run_recorded");
         kani::cover!(moved == 1 && run && size0 == 0, "COV:normalrle.run_refused_after_history_reset");
+    }
+
+    // ------------------------------------------------------------------
+    // K-findmatch : the real DictOxide::find_match walking a concrete hash chain over concrete window bytes
+    //   position 70536 (window index 5000) "abcdefghij";  chain: 4990 (distance 10, "abcde" then different: common
+    //   length 5) -> 4700 (distance 300, "abcdefg": common length 7) -> an entry exactly 65536 bytes old (u16 position
+    //   aliasing the current one: distance 0) -- with probe budget, distance limit, length limit and the incoming
+    //   match symbolic. Contract (the one model_find_match hands to compress_normal): the result is the incoming
+    //   pair or a strictly longer match that is REAL data at a distance in 1..=max_dist.
+    // ------------------------------------------------------------------
+    #[kani::proof]
+    #[kani::unwind(34)]
+    #[kani::stub(DictOxide::read_unaligned_u64, model_read_u64_exact)]
+    fn k_find_match_chain() {
+        let mut d = DictOxide::new(0);
+        const L: usize = 65536 + 5000;
+        let cur = *b"abcdefghij";
+        let c10 = *b"abcdeXYZWV";
+        let c300 = *b"abcdefgQRS";
+        let mut k = 0;
+        while k < 10 { d.b.dict[5000 + k] = cur[k]; d.b.dict[4990 + k] = c10[k]; d.b.dict[4700 + k] = c300[k]; k += 1; }
+        // bytes 5000..5010 were just overwritten by `cur` for k with 4990+k >= 5000: none (4990+9 = 4999)
+        d.b.next[5000] = 4990 + 65536usize as u16;
+        d.b.next[4990] = 4700;
+        d.b.next[4700] = (L & 0xFFFF) as u16; // 65536 bytes old: aliases the current position
+        // incoming length and length limit range over concrete values (a symbolic one becomes a symbolic index into
+        // the 33 KiB window at `pos + match_len - 1`: memory-killed at 12 GB)
+        let lens = [0u32, 3, 5, 6, 0, 3, 0, 3];
+        let mmls = [258u32, 258, 258, 258, 6, 6, 4, 4];
+        let mut i = 0;
+        while i < 8 {
+            let len_in = lens[i];
+            let probes: u32 = kani::any();
+            kani::assume(probes >= 1 && probes <= 4);
+            d.max_probes = [probes, probes];
+            let max_dist: usize = kani::any();
+            kani::assume(max_dist <= LZ_DICT_SIZE);
+            let mml: u32 = mmls[i];
+            let dist_in: u32 = kani::any();
+            let (rd, rl) = d.find_match(L, max_dist, mml, dist_in, len_in);
+            let base = core::cmp::max(len_in, 1);
+            if rd == dist_in && rl == base {
+                // nothing better found: allowed (the search is a heuristic)
+            } else {
+                assert!(rl > base, "OBL:findmatch.result_is_the_incoming_pair_or_strictly_longer [C10]");
+                assert!(rd >= 1, "OBL:findmatch.never_a_zero_distance_even_when_a_chain_entry_is_65536_bytes_old [C01 C10]");
+                assert!(rd as usize <= max_dist, "OBL:findmatch.distance_within_the_callers_limit [C10 C11]");
+                assert!(rl <= core::cmp::min(mml, 258), "OBL:findmatch.length_within_the_callers_limit [C01 C10]");
+                assert!((rd == 10 && rl <= 5) || (rd == 300 && rl <= 7), "OBL:findmatch.reported_match_is_real_window_data [C01 C10]");
+            }
+            kani::cover!(rd == 10 && rl == 5 && dist_in != 10, "COV:findmatch.found_distance_10");
+            kani::cover!(rd == 300 && rl == 7 && dist_in != 300, "COV:findmatch.found_distance_300");
+            i += 1;
+        }
     }
 
     //@PLAYBACK@
